@@ -63,11 +63,17 @@ macro_rules! logint_one {
         if (a < 1.0) != (b < 1.0) { m.count("a_b_straddle_one"); }
         if kx != 1.0 { m.count("knot_x_not_one"); }
         let hh = hash_bits(9, c.iter().map(|e| e.to_bits()).chain([kx.to_bits(), ky.to_bits(), a.to_bits(), b.to_bits(), $deg as u64]));
-        let res = guard(|| {
+        let body = move || {
             let ind = p.indefinite();
             let f = p.integral(k);
             (ind.nums(), f.nums(), f.evaluate(kx), f.evaluate(a), f.evaluate(b), ind.evaluate(a), ind.evaluate(b))
-        });
+        };
+        let res = if r.below(16) == 0 {
+            m.count("evaluated_on_fresh_thread");
+            guard(move || std::thread::spawn(body).join().map_err(|_| ()).expect("library panic on a fresh thread"))
+        } else {
+            guard(body)
+        };
         match res {
             Err(pn) => m.panic("log integral panic", &pn, || json!({"degree": $deg, "c": hxs(&c), "knot": [hx(kx), hx(ky)]})),
             Ok((ind, f, fk, fa, fb, ia, ib)) => {
@@ -96,7 +102,7 @@ fn canaries09(m: &mut Mon, sink: &mut Sink) {
     m.canaries_fed += 4;
 }
 
-pub const FLOORS09: &[&str] = &["degree:0", "degree:4", "degree:8", "knot_x_not_one", "a_b_straddle_one", "a:ulps_of_1", "a:e4", "b:e-4", "a:in_0_1", "a:subnormal", "coeffs:common_scale", "coeffs:tiny_scale", "area_checked", "knot_checked", "coefficients_checked"];
+pub const FLOORS09: &[&str] = &["evaluated_on_fresh_thread", "degree:0", "degree:4", "degree:8", "knot_x_not_one", "a_b_straddle_one", "a:ulps_of_1", "a:e4", "b:e-4", "a:in_0_1", "a:subnormal", "coeffs:common_scale", "coeffs:tiny_scale", "area_checked", "knot_checked", "coefficients_checked"];
 
 pub fn drive09(a: &Args, m: &mut Mon, sink: &mut Sink) {
     m.floors(FLOORS09);
@@ -232,7 +238,7 @@ fn canaries10(m: &mut Mon, sink: &mut Sink) {
 
 pub const FLOORS10: &[&str] = &[
     "v:v_ulps_of_1", "v:v_adjacent_floats_of_1", "v:v_one", "v:v_ulps_of_lower_switch", "v:v_ulps_of_upper_switch", "v:x_sweep_-40_40", "v:v_tiny", "v:v_huge", "v:x_near_zero",
-    "form:one_hot", "form:benchmark_magnitudes", "form:from_integral", "form:common_scale", "v:v_repeated", "branch_series", "branch_closed_form", "checked", "v_equals_one_exact",
+    "form:one_hot", "form:benchmark_magnitudes", "form:from_integral", "form:common_scale", "v:v_repeated", "evaluated_on_fresh_thread", "branch_series", "branch_closed_form", "checked", "v_equals_one_exact",
 ];
 
 pub fn drive10(a: &Args, m: &mut Mon, sink: &mut Sink) {
@@ -298,10 +304,17 @@ pub fn drive10(a: &Args, m: &mut Mon, sink: &mut Sink) {
         m.eval();
         m.count(&format!("form:{}", fc));
         m.count(&format!("v:{}", vc));
+        let fresh = r.below(16) == 0;
         let (s0, c0) = verif_exp5_branch_counts();
-        let res = guard(|| q.evaluate(v));
+        let res = if fresh {
+            // first library call of a brand-new thread (per-thread state starts pristine there)
+            m.count("evaluated_on_fresh_thread");
+            guard(move || std::thread::spawn(move || q.evaluate(v)).join().map_err(|_| ()).expect("library panic on a fresh thread"))
+        } else {
+            guard(|| q.evaluate(v))
+        };
         let (s1, c1) = verif_exp5_branch_counts();
-        let branch = if s1 > s0 { m.count("branch_series"); "series" } else if c1 > c0 { m.count("branch_closed_form"); "closed" } else { m.count("branch_unknown"); "?" };
+        let branch = if fresh { "fresh-thread" } else if s1 > s0 { m.count("branch_series"); "series" } else if c1 > c0 { m.count("branch_closed_form"); "closed" } else { m.count("branch_unknown"); "?" };
         let hh = hash_bits(10, form.iter().map(|e| e.to_bits()).chain([v.to_bits()]));
         match res {
             Err(pn) => m.panic("IntOfLogPoly4::evaluate panic", &pn, || json!({"f": hxs(&form), "v": hx(v)})),
